@@ -10,9 +10,9 @@ python3 - "$D" "$PKG" > $OV <<'PY'
 import json,os,sys
 d,pkg=sys.argv[1],sys.argv[2]
 src='/verif/replaysrc/'+d
-print(json.dumps({"Replace":{os.path.join('/repo',pkg,'zz_verif_'+f):os.path.join(src,f) for f in os.listdir(src) if f.endswith('_test.go')}}))
+print(json.dumps({"Replace":{os.path.join(os.environ.get('VERIF_REPO','/repo'),pkg,'zz_verif_'+f):os.path.join(src,f) for f in os.listdir(src) if f.endswith('_test.go')}}))
 PY
-cd /repo && go test -overlay $OV -vet=off -count=1 -timeout 120s -run "$PAT" ./$PKG/ 2>&1 | grep -v 'level=\|^20[0-9][0-9]/' | cut -c1-400
+cd ${VERIF_REPO:-/repo} && go test -overlay $OV -vet=off -count=1 -timeout 120s -run "$PAT" ./$PKG/ 2>&1 | grep -v 'level=\|^20[0-9][0-9]/' | cut -c1-400
 rc=${PIPESTATUS[0]}
 rm -f $OV
 exit $rc
